@@ -148,6 +148,14 @@ impl Response {
                     self.headers.set().ContentLength(None);
                 }
             }
+            (Content::Payload(_), _) => {
+                // A payload is sent as it is, with its `Content-Length`;
+                // `Transfer-Encoding` left by a replaced stream would
+                // make the client wait for chunks
+                if !/* not */self.headers.TransferEncoding().is_none() {
+                    self.headers.set().TransferEncoding(None);
+                }
+            }
             _ => (/* let it go by user's responsibility */)
         }
     }
